@@ -155,7 +155,7 @@ def part(ctx, proto, thorough):
                      "trunc_inserts": [len(ins) - 2, len(ins) - 1] if (thorough or len(jobs) % 5 == 0) else [],
                      "pinserts": early_data(proto, c)})
         wants.append(len(c["want"]))
-    res = flowjobs.run_jobs(ctx, drv, codec.P[proto]["variants"], jobs, env={"VERIF_ELEMENTS_DIR": eldir}, tag="v_" + proto, timeout=5000)
+    res = flowjobs.run_jobs_par(ctx, drv, codec.P[proto]["variants"], jobs, shards=8, env={"VERIF_ELEMENTS_DIR": eldir}, tag="v_" + proto, timeout=5000)
     for job, r, w in zip(jobs, res, wants):
         if not r.get("skipped"):
             judge(ctx, proto, job, r, w)
